@@ -169,6 +169,8 @@ impl C18 {
             let _ = catch(|| ax.mem_init_zero(0x7000_0000, 0x2000));
             let _ = catch(|| ax.reg_write_64(SR::RSP, 0x7000_1000));
         }
+        // "the stack is empty" = RSP is where init_stack left it (not read from the machine's own sentinel)
+        let initial_rsp = if with_stack { ax.reg_read_64(SR::RSP).ok() } else { None };
         let mut tr = Tracer::from_initial(&ax.verif_trace(), &ax.verif_call_stack());
         let initial_ok = tr.entries.len() == 1 && tr.entries[0].variant == 0 && tr.entries[0].target == proggen::CODE_AT && tr.call_stack == vec![proggen::CODE_AT];
         let fail = |col: &mut Collector, rule: &str, detail: String, step: u64| {
@@ -187,7 +189,6 @@ impl C18 {
             let flags = ax.verif_rflags();
             let rcx = ax.reg_read_64(SR::RCX).unwrap_or(0);
             let rsp = ax.reg_read_64(SR::RSP).unwrap_or(0);
-            let stack_top = ax.verif_stack_top();
             let ins = decode_at(&prog.code, proggen::CODE_AT, rip);
             col.publish("trace", &prog.shape);
             let r = call(|| block_on(ax.step()));
@@ -213,7 +214,7 @@ impl C18 {
                     }
                     Mnemonic::Ret => {
                         // a top-level return that finds the stack empty ends the run and is not a traced return
-                        let finishing = rsp.wrapping_add(8) == stack_top;
+                        let finishing = Some(rsp) == initial_rsp;
                         if !finishing {
                             tr.add(rip, rip_after, 1);
                             let had = tr.call_stack.pop().is_some();
